@@ -71,8 +71,10 @@ def vfs_view(F, name):
     return IL.inlined(F, F.fn(VFS + "::" + name), want=lambda p: p.startswith("glas::vfs::") and not p.endswith(CORE) and "{closure" not in p, depth=3)
 
 
-def run(F, res, tier):
-    # ---- D1
+def text_and_line_map_written_together(F, res, rule="D1"):
+    """D1: the store keeps, per file, a text and the line map of that text. They are written only together, as the two results
+    of one LineMap::normalize call: a text paired with the line map of another text converts every position wrongly until
+    the next edit."""
     ws = EF.writers(F, VFS, "files", "glas::")
     who = sorted({f.path for f, e in ws})
     allowed = {VFS + "::set_path_content", VFS + "::change_file_content", VFS + "::remove_uri", VFS + "::new"}
@@ -83,7 +85,7 @@ def run(F, res, tier):
                 callers = {f.path for f, b, t in F.callers_of(lambda c, w=w: c == w)}
                 if callers and callers <= allowed:
                     allowed.add(w)
-    res.ob("D1", "files-writers", "Vfs.files is modified only by set_path_content, change_file_content and remove_uri (and helpers only they call)",
+    res.ob(rule, "files-writers", "Vfs.files is modified only by set_path_content, change_file_content and remove_uri (and helpers only they call)",
            set(who) <= allowed, where="crates/glas/src/vfs.rs", how=str(who))
     n_pairs = 0
     for name in ("set_path_content", "change_file_content"):
@@ -98,9 +100,13 @@ def run(F, res, tier):
         for b, s in stores:
             n_pairs += 1
             ok, why = tuple_from_normalize(f, d, s["rv"])
-            res.ob("D1", "%s/pair-from-one-normalize/%d" % (name, [x[0] for x in stores].index(b)),
+            res.ob(rule, "%s/pair-from-one-normalize/%d" % (name, [x[0] for x in stores].index(b)),
                    "the (text, line map) pair stored by %s comes from one LineMap::normalize call" % name, ok, where=f.loc(s["ln"]), how=why)
     res.floor("stored (text, line map) pairs", n_pairs, 3)
+
+
+def run(F, res, tier):
+    text_and_line_map_written_together(F, res)
     nm = F.fn("glas::vfs::LineMap::normalize")
     calls = [(b, FL.short(callee(t) or callee_def(t))) for b, t in nm.calls()]
     ret = [i for i, (b, c) in enumerate(calls) if c == "String::retain"]
